@@ -6,7 +6,10 @@
 //	fu.Repr(value)          the printed text (`%v`, what //str.repr and the CLI print)
 //	OutputValue(value)      the bytes the CLI writes for it (pkg/arrai/out.go, no --out)
 //
-// or "error". The same batch is run by lib/props_c07.py in N fresh processes (each draws its own hash
+// or "error". payload[1] = "xN" (optional): the program is evaluated N times in this process (parsed and evaluated
+// afresh each time); if the observables are not all identical the result is "unstable" followed by two of them
+// (a Go map is ranged over in a different order each time: an order dependence can show inside one process).
+// The same batch is run by lib/props_c07.py in N fresh processes (each draws its own hash
 // seeds at start-up); the observables must be byte-identical across processes and equal to the
 // model's prediction.
 //
@@ -16,6 +19,8 @@ package main
 import (
 	"bytes"
 	"fmt"
+	"strconv"
+	"strings"
 
 	"github.com/arr-ai/hash"
 
@@ -26,8 +31,8 @@ import (
 )
 
 func init() {
-	hlib.Register("run", func(p []string) string {
-		v, err := hlib.EvalSrc(p[0])
+	runOnce := func(src string) string {
+		v, err := hlib.EvalSrc(src)
 		if err != nil {
 			return "error"
 		}
@@ -36,6 +41,21 @@ func init() {
 			return "error:output"
 		}
 		return hlib.Canon(v) + "\n" + fu.Repr(v) + "\n" + out.String()
+	}
+	hlib.Register("run", func(p []string) string {
+		first := runOnce(p[0])
+		n := 1
+		if len(p) > 1 && strings.HasPrefix(p[1], "x") {
+			if k, err := strconv.Atoi(p[1][1:]); err == nil && k > 1 && k <= 16 {
+				n = k
+			}
+		}
+		for i := 1; i < n; i++ {
+			if again := runOnce(p[0]); again != first {
+				return "unstable\n" + first + "\n---\n" + again
+			}
+		}
+		return first
 	})
 	hlib.Register("seeds", func(p []string) string {
 		a, h := hash.GetSeeds()
